@@ -13,6 +13,7 @@ import FB.Overlay
 import FB.Rollback
 import FB.MakeDirs
 import FB.MakeRoom
+import FB.MakeRoomF
 import FB.Conc
 import FB.ConcDirs
 import FB.ConcDirsF
@@ -511,6 +512,14 @@ def runMR (j : Lean.Json) : Except String Lean.Json := do
     ("saved", .arr (st.bk.saved.map fun (p, e) => match e with
         | .file c m => Lean.Json.arr #[.str (showPath p), .str c, .num (.fromNat m)]
         | .dir => Lean.Json.arr #[.str (showPath p), .str "dir"]).toArray)]
+  match (j.getObjVal? "failAt").toOption with
+  | some fa =>
+    -- C14: the `failAt`-th mutating call (rename of a file moved aside, rmdir) fails with OSError (`FB.MakeRoomF`)
+    let k ← fa.getNat?
+    match FB.MakeRoomF.makeRoom (fun p => virtDirs.contains p) (fun p => virtFiles.contains p) (some k) 64 { st := { fs := fs, bk := {} } } d with
+    | .ok c => return (showSt c.st "ok").setObjVal! "calls" (.num (.fromNat c.n))
+    | .error c => return (showSt c.st (if c.raw then "OSError" else "IsADirectoryError")).setObjVal! "calls" (.num (.fromNat c.n))
+  | none =>
   match FB.MakeRoom.makeRoom (fun p => virtDirs.contains p) (fun p => virtFiles.contains p) 64 { fs := fs, bk := {} } d with
   | .ok st => return showSt st "ok"
   | .error st => return showSt st "IsADirectoryError"
